@@ -1,7 +1,357 @@
 /-
-Helper lemmas for Props/C12B.lean (ContainerGlue).
+Helper lemmas for Props/C12B.lean (ContainerGlue): the block partition `chunkBytes`, the first bytes and the value range of
+the plain encoders, detection on an encoded container and decoding of an encoded container given the codec round trips.
 -/
-import SfsModel.Model.Container
+import SfsModel.Lemmas.Inflate
+import SfsModel.Lemmas.VcfHeader
+import SfsModel.Lemmas.Detect
 namespace Sfs
+
+/-! ## value ranges -/
+
+/-- every value of the list is below `N` (`IsBytes = AllLt 256`) -/
+def AllLt (N : Nat) (l : List Nat) : Prop := ∀ b ∈ l, b < N
+
+theorem isBytes_iff_allLt (l : List Nat) : IsBytes l ↔ AllLt 256 l := Iff.rfl
+
+theorem AllLt.mono {N M : Nat} {l : List Nat} (h : AllLt N l) (hNM : N ≤ M) : AllLt M l :=
+  fun b hb => Nat.lt_of_lt_of_le (h b hb) hNM
+
+theorem AllLt.append {N : Nat} {a b : List Nat} (ha : AllLt N a) (hb : AllLt N b) : AllLt N (a ++ b) := by
+  intro x hx
+  rcases List.mem_append.1 hx with h | h
+  · exact ha x h
+  · exact hb x h
+
+theorem AllLt.cons {N a : Nat} {l : List Nat} (ha : a < N) (hl : AllLt N l) : AllLt N (a :: l) := by
+  intro x hx
+  rcases List.mem_cons.1 hx with rfl | h
+  · exact ha
+  · exact hl x h
+
+theorem AllLt.nil {N : Nat} : AllLt N [] := by
+  intro x hx; simp at hx
+
+theorem AllLt.flatMap {α : Type} {N : Nat} (xs : List α) (f : α → List Nat) (h : ∀ x ∈ xs, AllLt N (f x)) :
+    AllLt N (xs.flatMap f) := by
+  intro b hb
+  obtain ⟨x, hx, hbx⟩ := List.mem_flatMap.1 hb
+  exact h x hx b hbx
+
+theorem allLt_toLe32 (n : Nat) : AllLt 256 (toLe32 n) := by
+  intro b hb
+  simp only [toLe32, List.mem_cons, List.not_mem_nil, or_false] at hb
+  omega
+
+theorem allLt_natBytes (n : Nat) : AllLt 256 (natBytes n) := by
+  intro b hb
+  simp only [natBytes, List.mem_map] at hb
+  obtain ⟨c, hc, rfl⟩ := hb
+  have h : c.isDigit = true := Nat.isDigit_of_mem_toDigits (by decide) (by decide) hc
+  simp only [Char.isDigit, Bool.and_eq_true, decide_eq_true_eq] at h
+  have h2 : c.val ≤ '9'.val := h.2
+  rw [UInt32.le_iff_toNat_le] at h2
+  have : c.toNat ≤ 57 := h2
+  omega
+
+theorem allLt_renderGt (g : GtRes) : AllLt 256 (renderGt g) := by
+  unfold renderGt
+  split <;> (show ∀ b ∈ _, b < 256) <;> decide
+
+theorem allLt_renderGtBcf (g : GtRes) : AllLt 256 (renderGtBcf g) := by
+  unfold renderGtBcf
+  split <;> (show ∀ b ∈ _, b < 256) <;> decide
+
+/-- a code point is below 2³² -/
+theorem allLt_strBytes_wide (s : String) : AllLt (2 ^ 32) (strBytes s) := by
+  intro b hb
+  obtain ⟨c, _, rfl⟩ := mem_strBytes.1 hb
+  exact UInt32.toNat_lt c.val
+
+theorem allLt_strBytes_name {s : String} (h : WfName s) : AllLt 256 (strBytes s) := by
+  intro b hb
+  obtain ⟨c, hc, rfl⟩ := mem_strBytes.1 hb
+  have := (h.2 c hc).1
+  omega
+
+theorem allLt_strBytes_contig {s : String} (h : WfContig s) : AllLt 256 (strBytes s) := by
+  intro b hb
+  have := wfContig_bytes h hb
+  omega
+
+theorem allLt_joinTab {N : Nat} (hN : 256 ≤ N) (ls : List (List Nat)) (h : ∀ l ∈ ls, AllLt N l) : AllLt N (joinTab ls) := by
+  intro b hb
+  rcases mem_joinTab hb with rfl | ⟨l, hl, hbl⟩
+  · omega
+  · exact h l hl b hbl
+
+theorem allLt_headerText {N : Nat} (hN : 256 ≤ N) (cols contigs : List String)
+    (hcols : ∀ s ∈ cols, AllLt N (strBytes s)) (hctg : ∀ s ∈ contigs, AllLt N (strBytes s)) :
+    AllLt N (headerText cols contigs) := by
+  have l1 : AllLt 256 (strBytes "##fileformat=VCFv4.3\n") := by show ∀ b ∈ _, b < 256; decide
+  have l2 : AllLt 256 (strBytes "##contig=<ID=") := by show ∀ b ∈ _, b < 256; decide
+  have l3 : AllLt 256 (strBytes ">\n") := by show ∀ b ∈ _, b < 256; decide
+  have l4 : AllLt 256 (strBytes "##FORMAT=<ID=GT,Number=1,Type=String,Description=\"Genotype\">\n") := by
+    show ∀ b ∈ _, b < 256; decide
+  have l5 : AllLt 256 chromLinePrefix := by show ∀ b ∈ _, b < 256; decide
+  unfold headerText
+  refine AllLt.append (AllLt.append (AllLt.append (AllLt.append (AllLt.append (l1.mono hN) ?_) (l4.mono hN)) (l5.mono hN))
+    (allLt_joinTab hN _ ?_)) (AllLt.cons (by omega) AllLt.nil)
+  · exact AllLt.flatMap _ _ (fun c hc => AllLt.append (AllLt.append (l2.mono hN) (hctg c hc)) (l3.mono hN))
+  · intro l hl
+    obtain ⟨s, hs, rfl⟩ := List.mem_map.1 hl
+    exact hcols s hs
+
+theorem allLt_vcfEncodeRec {N : Nat} (hN : 256 ≤ N) (contig : String) (pos : Nat) (gts : List GtRes)
+    (hc : AllLt N (strBytes contig)) : AllLt N (vcfEncodeRec contig pos gts) := by
+  have l1 : AllLt 256 (strBytes "\t.\tA\tC\t.\t.\t.\tGT") := by show ∀ b ∈ _, b < 256; decide
+  unfold vcfEncodeRec
+  refine AllLt.append (AllLt.append (AllLt.append (AllLt.append (AllLt.append hc ?_) ((allLt_natBytes pos).mono hN))
+    (l1.mono hN)) ?_) (AllLt.cons (by omega) AllLt.nil)
+  · exact AllLt.cons (by omega) AllLt.nil
+  · exact AllLt.flatMap _ _ (fun g _ => AllLt.cons (by omega) ((allLt_renderGt g).mono hN))
+
+theorem allLt_vcfEncode {N : Nat} (hN : 256 ≤ N) (cols contigs : List String) (recs : List (String × Nat × List GtRes))
+    (hcols : ∀ s ∈ cols, AllLt N (strBytes s)) (hctg : ∀ s ∈ contigs, AllLt N (strBytes s))
+    (hrec : ∀ r ∈ recs, AllLt N (strBytes r.1)) : AllLt N (vcfEncode cols contigs recs) := by
+  unfold vcfEncode
+  exact AllLt.append (allLt_headerText hN cols contigs hcols hctg)
+    (AllLt.flatMap _ _ (fun r hr => allLt_vcfEncodeRec hN r.1 r.2.1 r.2.2 (hrec r hr)))
+
+theorem allLt_bcfEncodeRec (contigs : List String) (ncols : Nat) (contig : String) (pos : Nat) (gts : List GtRes) :
+    AllLt 256 (bcfEncodeRec contigs ncols contig pos gts) := by
+  have l1 : AllLt 256 [0x01, 0x00, 0x80, 0x7f] := by show ∀ b ∈ _, b < 256; decide
+  have l2 : AllLt 256 [0x07, 0x17, 65, 0x17, 67, 0x00] := by show ∀ b ∈ _, b < 256; decide
+  have l3 : AllLt 256 [0x11, 1, 0x21] := by show ∀ b ∈ _, b < 256; decide
+  unfold bcfEncodeRec
+  dsimp only
+  have hshared : AllLt 256 (toLe32 (contigs.idxOf contig) ++ toLe32 (pos - 1) ++ toLe32 1 ++ [0x01, 0x00, 0x80, 0x7f] ++
+      toLe32 (2 * 65536) ++ toLe32 (16777216 + ncols) ++ [0x07, 0x17, 65, 0x17, 67, 0x00]) :=
+    AllLt.append (AllLt.append (AllLt.append (AllLt.append (AllLt.append (AllLt.append (allLt_toLe32 _) (allLt_toLe32 _))
+      (allLt_toLe32 _)) l1) (allLt_toLe32 _)) (allLt_toLe32 _)) l2
+  have hindiv : AllLt 256 ([0x11, 1, 0x21] ++ gts.flatMap renderGtBcf) :=
+    AllLt.append l3 (AllLt.flatMap _ _ (fun g _ => allLt_renderGtBcf g))
+  exact AllLt.append (AllLt.append (AllLt.append (allLt_toLe32 _) (allLt_toLe32 _)) hshared) hindiv
+
+theorem allLt_bcfEncode {N : Nat} (hN : 256 ≤ N) (cols contigs : List String) (recs : List (String × Nat × List GtRes))
+    (hcols : ∀ s ∈ cols, AllLt N (strBytes s)) (hctg : ∀ s ∈ contigs, AllLt N (strBytes s)) :
+    AllLt N (bcfEncode cols contigs recs) := by
+  have l1 : AllLt 256 [66, 67, 70, 2, 2] := by show ∀ b ∈ _, b < 256; decide
+  unfold bcfEncode
+  dsimp only
+  refine AllLt.append (AllLt.append (AllLt.append (l1.mono hN) ((allLt_toLe32 _).mono hN)) ?_) ?_
+  · exact AllLt.append (allLt_headerText hN cols contigs hcols hctg) (AllLt.cons (by omega) AllLt.nil)
+  · exact AllLt.flatMap _ _ (fun r _ => (allLt_bcfEncodeRec contigs cols.length r.1 r.2.1 r.2.2).mono hN)
+
+/-- whatever the names, the encoders write values below 2³² (code points) -/
+theorem allLt_vcfEncode_wide (cols contigs : List String) (recs : List (String × Nat × List GtRes)) :
+    AllLt (2 ^ 32) (vcfEncode cols contigs recs) :=
+  allLt_vcfEncode (by omega) cols contigs recs (fun s _ => allLt_strBytes_wide s) (fun s _ => allLt_strBytes_wide s)
+    (fun r _ => allLt_strBytes_wide r.1)
+
+theorem allLt_bcfEncode_wide (cols contigs : List String) (recs : List (String × Nat × List GtRes)) :
+    AllLt (2 ^ 32) (bcfEncode cols contigs recs) :=
+  allLt_bcfEncode (by omega) cols contigs recs (fun s _ => allLt_strBytes_wide s) (fun s _ => allLt_strBytes_wide s)
+
+/-- for a well-formed call set the VCF text consists of bytes -/
+theorem isBytes_vcfEncode (cols contigs : List String) (recs : List (String × Nat × List GtRes))
+    (h : WfCallSet cols contigs recs) : IsBytes (vcfEncode cols contigs recs) :=
+  allLt_vcfEncode (Nat.le_refl _) cols contigs recs (fun s hs => allLt_strBytes_name (h.cols_wf s hs))
+    (fun s hs => allLt_strBytes_contig (h.contigs_wf s hs))
+    (fun r hr => allLt_strBytes_contig (h.contigs_wf r.1 (h.recs_wf r hr).1))
+
+theorem isBytes_bcfEncode (cols contigs : List String) (recs : List (String × Nat × List GtRes))
+    (h : WfCallSet cols contigs recs) : IsBytes (bcfEncode cols contigs recs) :=
+  allLt_bcfEncode (Nat.le_refl _) cols contigs recs (fun s hs => allLt_strBytes_name (h.cols_wf s hs))
+    (fun s hs => allLt_strBytes_contig (h.contigs_wf s hs))
+
+/-! ## first bytes of the encoders -/
+
+theorem vcfEncode_head (cols contigs : List String) (recs : List (String × Nat × List GtRes)) :
+    ∃ rest, vcfEncode cols contigs recs = 35 :: 35 :: 102 :: rest := by
+  have e : strBytes "##fileformat=VCFv4.3\n" = 35 :: 35 :: 102 :: (strBytes "##fileformat=VCFv4.3\n").drop 3 := by decide
+  unfold vcfEncode headerText
+  rw [e]
+  exact ⟨_, by simp only [List.cons_append]; rfl⟩
+
+theorem bcfEncode_head (cols contigs : List String) (recs : List (String × Nat × List GtRes)) :
+    ∃ rest, bcfEncode cols contigs recs = 66 :: 67 :: 70 :: rest := by
+  unfold bcfEncode
+  exact ⟨_, by simp only [List.cons_append]; rfl⟩
+
+theorem take3_cons3 (a b c : Nat) (rest : List Nat) (n : Nat) :
+    (a :: b :: c :: rest).take (n + 3) = a :: b :: c :: rest.take n := rfl
+
+/-! ## the block partition -/
+
+theorem chunkBytes_flatten (n : Nat) (hn : 1 ≤ n) : ∀ (fuel : Nat) (l : List Nat), l.length ≤ fuel →
+    (chunkBytes n fuel l).flatten = l := by
+  intro fuel
+  induction fuel with
+  | zero =>
+    intro l h
+    have : l = [] := List.eq_nil_of_length_eq_zero (by omega)
+    subst this; rfl
+  | succ f ih =>
+    intro l h
+    rw [chunkBytes]
+    split
+    · next he => rw [List.isEmpty_iff.1 he]; rfl
+    · next he =>
+      have hne : l ≠ [] := fun e => he (by rw [e]; rfl)
+      have hpos : 0 < l.length := List.length_pos_iff.2 hne
+      rw [List.flatten_cons, ih (l.drop n) (by rw [List.length_drop]; omega), List.take_append_drop]
+
+theorem chunkBytes_mem (n : Nat) : ∀ (fuel : Nat) (l : List Nat), ∀ c ∈ chunkBytes n fuel l,
+    c.length ≤ n ∧ ∀ b ∈ c, b ∈ l := by
+  intro fuel
+  induction fuel with
+  | zero => intro l c hc; simp [chunkBytes] at hc
+  | succ f ih =>
+    intro l c hc
+    rw [chunkBytes] at hc
+    split at hc
+    · simp at hc
+    · rcases List.mem_cons.1 hc with rfl | hc'
+      · exact ⟨by rw [List.length_take]; omega, fun b hb => List.mem_of_mem_take hb⟩
+      · obtain ⟨h1, h2⟩ := ih _ c hc'
+        exact ⟨h1, fun b hb => List.mem_of_mem_drop (h2 b hb)⟩
+
+theorem chunkBytes_head (n : Nat) (hn : 3 ≤ n) (l : List Nat) (hl : 3 ≤ l.length) :
+    ∃ c cs, chunkBytes n l.length l = c :: cs ∧ 3 ≤ c.length ∧ c.length ≤ n ∧ c.take 3 = l.take 3 ∧ ∀ b ∈ c, b ∈ l := by
+  obtain ⟨f, hf⟩ : ∃ f, l.length = f + 1 := ⟨l.length - 1, by omega⟩
+  have hne : l.isEmpty = false := by
+    cases l with
+    | nil => simp at hl
+    | cons a t => rfl
+  refine ⟨l.take n, chunkBytes n f (l.drop n), ?_, ?_, ?_, ?_, ?_⟩
+  · rw [hf, chunkBytes, hne]; rfl
+  · rw [List.length_take]; omega
+  · rw [List.length_take]; omega
+  · rw [List.take_take, Nat.min_eq_left hn]
+  · exact fun b hb => List.mem_of_mem_take hb
+
+/-! ## gzip peek with code-point values (`detect_encoded` carries no well-formedness hypothesis) -/
+
+theorem crcByte_lt_wide (c b : Nat) (h : c < 2 ^ 32) (hb : b < 2 ^ 32) : crcByte c b < 2 ^ 32 := by
+  unfold crcByte
+  have h0 : c ^^^ b < 2 ^ 32 := Nat.xor_lt_two_pow h hb
+  exact crcStep_lt _ (crcStep_lt _ (crcStep_lt _ (crcStep_lt _ (crcStep_lt _ (crcStep_lt _ (crcStep_lt _
+    (crcStep_lt _ h0)))))))
+
+theorem foldl_crcByte_lt_wide (data : List Nat) : ∀ c, c < 2 ^ 32 → AllLt (2 ^ 32) data →
+    data.foldl crcByte c < 2 ^ 32 := by
+  induction data with
+  | nil => intro c h _; simpa using h
+  | cons b t ih =>
+    intro c h hb
+    simp only [List.foldl_cons]
+    exact ih _ (crcByte_lt_wide c b h (hb b (by simp))) (fun x hx => hb x (by simp [hx]))
+
+theorem crc32_lt_wide (data : List Nat) (hb : AllLt (2 ^ 32) data) : crc32 data < 2 ^ 32 := by
+  unfold crc32
+  exact Nat.xor_lt_two_pow (foldl_crcByte_lt_wide data _ (by omega) hb) (by omega)
+
+theorem gunzipMember_frame_wide (c tail : List Nat) (hb : AllLt (2 ^ 32) c) (hl : c.length ≤ 65280) :
+    gunzipMember (bgzfFrame (deflateStored 0 c) c ++ tail) = some (c, tail) := by
+  rw [bgzfFrame_eq]
+  have hi := inflate_deflateStored c (toLe32 (crc32 c) ++ toLe32 c.length ++ tail) 0 (by omega)
+  have hcrc := le32_toLe32 _ (crc32_lt_wide c hb)
+  have hlen := le32_toLe32 c.length (by omega)
+  have hmod : c.length % 4294967296 = c.length := by omega
+  simp only [toLe32, List.cons_append, List.nil_append] at hi ⊢
+  exact gunzipMember_bgzf _ _ _ _ _ _ _ _ _ _ _ _ _ _ _ _ _ _ _ _ _ _ _ hi hcrc (by rw [hmod]; exact hlen)
+
+theorem inflate3_encodeStored_wide (c : List Nat) (cs : List (List Nat)) (hb : AllLt (2 ^ 32) c)
+    (hc : 3 ≤ c.length ∧ c.length ≤ 65280) :
+    inflate3 ((bgzfEncodeStored (c :: cs)).take 65536) = some (c.take 3) := by
+  have hfl : (bgzfFrame (deflateStored 0 c) c).length ≤ 65536 := by
+    rw [bgzfFrame_length, deflateStored_zero_length c (by omega)]; omega
+  rw [bgzfEncodeStored_cons, List.take_append, List.take_of_length_le hfl]
+  unfold inflate3
+  rw [gunzipPrefix]
+  rw [gunzipMember_frame_wide c _ hb hc.2]
+  simp
+  omega
+
+theorem gzipMagic_prefix_encodeStored (c : List Nat) (cs : List (List Nat)) :
+    gzipMagic.isPrefixOf ((bgzfEncodeStored (c :: cs)).take 65536) = true := by
+  rw [bgzfEncodeStored_cons, bgzfFrame_eq]
+  rfl
+
+/-! ## detection on an encoded container -/
+
+theorem detect_gz_payload (blk : Nat) (hblk : 3 ≤ blk ∧ blk ≤ 65280) (p : List Nat) (hp : AllLt (2 ^ 32) p)
+    (h3 : 3 ≤ p.length) :
+    detectContainer inflate3 ((bgzfEncodeStored (chunkBytes blk p.length p)).take 65536) =
+      .ok (if p.take 3 = bcfMagic then .bcfGz else .vcfGz) := by
+  obtain ⟨c, cs, he, hc3, hcn, htake, hmem⟩ := chunkBytes_head blk hblk.1 p h3
+  rw [he, detectContainer_gz inflate3 _ (c.take 3) (gzipMagic_prefix_encodeStored c cs)
+    (inflate3_encodeStored_wide c cs (fun b hb => hp b (hmem b hb)) ⟨hc3, by omega⟩), htake]
+
+theorem detectContainer_encodeContainer (blk : Nat) (hblk : 3 ≤ blk ∧ blk ≤ 65280) (cols contigs : List String)
+    (recs : List (String × Nat × List GtRes)) (c : Container) :
+    detectContainer inflate3 ((encodeContainer blk cols contigs recs c).take 65536) = .ok c := by
+  obtain ⟨rv, hv⟩ := vcfEncode_head cols contigs recs
+  obtain ⟨rb, hb⟩ := bcfEncode_head cols contigs recs
+  cases c with
+  | vcf =>
+    show detectContainer inflate3 ((vcfEncode cols contigs recs).take 65536) = _
+    rw [hv, take3_cons3 35 35 102 rv 65533]
+    exact detectContainer_vcf _ _ rfl rfl
+  | bcfRaw =>
+    show detectContainer inflate3 ((bcfEncode cols contigs recs).take 65536) = _
+    rw [hb, take3_cons3 66 67 70 rb 65533]
+    exact detectContainer_bcfRaw _ _ rfl rfl
+  | vcfGz =>
+    show detectContainer inflate3 ((bgzfEncodeStored (chunkBytes blk (vcfEncode cols contigs recs).length
+      (vcfEncode cols contigs recs))).take 65536) = _
+    rw [detect_gz_payload blk hblk _ (allLt_vcfEncode_wide cols contigs recs) (by rw [hv]; simp), hv]
+    rfl
+  | bcfGz =>
+    show detectContainer inflate3 ((bgzfEncodeStored (chunkBytes blk (bcfEncode cols contigs recs).length
+      (bcfEncode cols contigs recs))).take 65536) = _
+    rw [detect_gz_payload blk hblk _ (allLt_bcfEncode_wide cols contigs recs) (by rw [hb]; simp), hb]
+    rfl
+
+/-! ## decoding an encoded container, given the codec round trips -/
+
+theorem bgzfDecodeAll_chunkBytes (blk : Nat) (hblk : 1 ≤ blk ∧ blk ≤ 65280) (p : List Nat) (hp : IsBytes p) :
+    bgzfDecodeAll (bgzfEncodeStored (chunkBytes blk p.length p)) = some p := by
+  rw [bgzfDecodeAll_encodeStored _ (fun c hc => by
+    obtain ⟨h1, h2⟩ := chunkBytes_mem blk p.length p c hc
+    exact ⟨fun b hb => hp b (h2 b hb), by omega⟩)]
+  rw [chunkBytes_flatten blk hblk.1 p.length p (Nat.le_refl _)]
+
+theorem decodeContainer_encodeContainer (blk : Nat) (hblk : 1 ≤ blk ∧ blk ≤ 65280) (cols contigs : List String)
+    (recs : List (String × Nat × List GtRes)) (cs : CallSet)
+    (hv : vcfDecode (vcfEncode cols contigs recs) = some cs) (hb : bcfDecode (bcfEncode cols contigs recs) = some cs)
+    (hvb : IsBytes (vcfEncode cols contigs recs)) (hbb : IsBytes (bcfEncode cols contigs recs)) (c : Container) :
+    decodeContainer c (encodeContainer blk cols contigs recs c) = some cs := by
+  cases c with
+  | vcf => exact hv
+  | bcfRaw => exact hb
+  | vcfGz =>
+    show (bgzfDecodeAll (bgzfEncodeStored (chunkBytes blk (vcfEncode cols contigs recs).length
+      (vcfEncode cols contigs recs)))).bind vcfDecode = _
+    rw [bgzfDecodeAll_chunkBytes blk hblk _ hvb]
+    exact hv
+  | bcfGz =>
+    show (bgzfDecodeAll (bgzfEncodeStored (chunkBytes blk (bcfEncode cols contigs recs).length
+      (bcfEncode cols contigs recs)))).bind bcfDecode = _
+    rw [bgzfDecodeAll_chunkBytes blk hblk _ hbb]
+    exact hb
+
+/-- the whole pipeline on an encoded container, given the codec round trips -/
+theorem createFromBytesC_encodeContainer (a : CreateArgs) (blk : Nat) (hblk : 3 ≤ blk ∧ blk ≤ 65280)
+    (cols contigs : List String) (recs : List (String × Nat × List GtRes)) (h : WfCallSet cols contigs recs)
+    (hv : vcfDecode (vcfEncode cols contigs recs) = some (cols, toRecs recs))
+    (hb : bcfDecode (bcfEncode cols contigs recs) = some (cols, toRecs recs)) (c : Container) :
+    createFromBytesC a (encodeContainer blk cols contigs recs c) = some (createCli a cols (toRecs recs)) := by
+  unfold createFromBytesC
+  exact createFromBytes_of_detect inflate3 decodeContainer a _ c (cols, toRecs recs)
+    (detectContainer_encodeContainer blk hblk cols contigs recs c)
+    (decodeContainer_encodeContainer blk ⟨by omega, hblk.2⟩ cols contigs recs _ hv hb
+      (isBytes_vcfEncode cols contigs recs h) (isBytes_bcfEncode cols contigs recs h) c)
 
 end Sfs
